@@ -114,7 +114,23 @@ KindProgV(X, Y, crit) ==
       misc == {[op |-> "sum", kind |-> "N", regs |-> r] : r \in {<<>>, <<7>>, <<7, 8>>, <<8, 10, 7>>, <<9, 11, 7>>, <<8, 9>>}}
               \cup {[op |-> z, kind |-> k] : z \in {"zero", "one"}, k \in {"D1", "D2", "N"}}
   IN [key |-> "kinds/" \o (IF crit THEN "crit/" ELSE "") \o ToString(X) \o ToString(Y), leaves |-> leaves, code |-> wraps \o SetToSeq(bin \cup rawok \cup cmp \cup un \cup conv \cup so \cup misc)]
-KindProgs == {KindProgV(X, Y, c) : X \in {<<"a", "b">>, <<>>}, Y \in {<<"a", "b">>, <<"b", "c">>, <<"b", "a">>}, c \in BOOLEAN}
+\* equality across kinds where everything of lower order coincides: a second-order number with ZERO gradient and a
+\* non-zero stored second-order array against the float (and the first-order constant) of the same value, bare and wrapped,
+\* in both positions - they are NOT equal, whatever the container arm looks at
+\* registers: 1 F  2 D2 (zero gradient, curvature)  3 D1 (zero gradient)  4 D2 (all derivatives zero)  5 N(1)  6 N(2)  7 N(3)  8 N(4)
+EqZeroProg(X) ==
+  LET n == Len(X)
+      zero == [i \in 1..n |-> FZ]
+      leaves == << LeafF(FOfRat(3, 2)),
+                   [t |-> "D2", re |-> FOfRat(3, 2), vars |-> X, d |-> zero, d2half |-> [i \in 1..n |-> [j \in 1..n |-> FOfRat(i + j, 16)]]],
+                   [t |-> "D1", re |-> FOfRat(3, 2), vars |-> X, d |-> zero],
+                   [t |-> "D2", re |-> FOfRat(3, 2), vars |-> X, d |-> zero, d2half |-> [i \in 1..n |-> zero]] >>
+      wraps == << [op |-> "wrap", a |-> 1], [op |-> "wrap", a |-> 2], [op |-> "wrap", a |-> 3], [op |-> "wrap", a |-> 4] >>
+      pairs == {<<1, 2>>, <<2, 1>>, <<1, 4>>, <<4, 1>>, <<2, 4>>, <<4, 2>>, <<1, 3>>, <<3, 1>>,          \* bare
+                <<5, 6>>, <<6, 5>>, <<5, 8>>, <<8, 5>>, <<6, 8>>, <<8, 6>>, <<5, 7>>, <<7, 5>>,          \* container with container
+                <<1, 6>>, <<6, 1>>, <<1, 8>>, <<8, 1>>, <<1, 7>>, <<7, 1>>}                              \* bare float with container
+  IN [key |-> "kinds/eqzero/" \o ToString(X), leaves |-> leaves, code |-> wraps \o SetToSeq({Ins2(op, p[1], p[2]) : op \in {"eq", "ne"}, p \in pairs})]
+KindProgs == {EqZeroProg(X) : X \in {<<"a">>, <<"a", "b">>}} \cup {KindProgV(X, Y, c) : X \in {<<"a", "b">>, <<>>}, Y \in {<<"a", "b">>, <<"b", "c">>, <<"b", "a">>}, c \in BOOLEAN}
 
 \* ---- order family (C19) ----------------------------------------------------------------------
 Vals == {FOfRat(-5, 2), FOfInt(-1), FOfRat(-3, 4), FOfRat(3, 4), FOfInt(1), FOfRat(5, 2)}
